@@ -122,6 +122,13 @@ def st_publish_any(ex, st, a, ins):
     st.ev('publish', kind={'SSH': 'ssh', 'X509': 'x509'}.get(kind, kind), data=a[-1], args=a[1:])
 
 
+def st_filtered_destination(ex, st, a, ins):
+    """contract of the login-destination filter (discharged by C17's kernel obligation): a fresh string; C17 adds the SAFE constraint"""
+    st.counter += 1; d = z3.String(f'filtered.destination!{st.counter}')
+    st.ev('filtered', dest=d)
+    return d
+
+
 def mkrun(ir, route, sealed=False, budget_s=120, loop_bound=6, max_paths=6000, checkauth='stub', extra=None):
     H = HandlerRun(ir, loop_bound=loop_bound, budget_s=budget_s, max_paths=max_paths)
     issue.install(H)
@@ -133,13 +140,14 @@ def mkrun(ir, route, sealed=False, budget_s=120, loop_bound=6, max_paths=6000, c
     H.stub_pat(r'^crypto\.Signer\.Public$|\(dyn:mainSigner\)\.Public$|Signer\)\.Public$', st_signer_public)
     H.stub(f'(*{M}.RuntimeState).IsAdminUser', st_is_admin)
     H.stub('regexp.MatchString', lib.re_match)
+    H.stub(f'{M}.getLoginDestination', st_filtered_destination)
     H.stub_pat(r'eventnotifier\.EventNotifier\)\.Publish(\w+)$', st_publish_any)
     H.stub(f'(*{M}.RuntimeState).sendBootstrapOtpEmail', lambda ex, st, a, ins: fork_results(ex, st, ins, [(None, lambda s: mk_error(s, SV('smtp'), 'email')), (None, nilerr())]))
     H.ex.ptr_nilable = False      # pointers reachable from the state / profiles are non-nil by construction; the nil-able ones are listed below
     path = z3.String('url.path')
     hints = [(re.compile(r'^\*r\.TLS$'), lambda ex, st, tid, name: _choice_nil(ex, st, tid, name)), pin(r'^\*state\.oktaUsernameFilterRE$', NIL),
              pin(r'^\*\*r\.URL\.Path$', path), lens(r'^len\(\*r\.(Post)?Form\[', [1]), lens(r'^req\.ncookies$', [0, 1]),
-             lens(r'^len\(\*state\.caCertDer\)$', [1]), lens(r'KeymasterPublicKeys\)$', [1])]
+             lens(r'^len\(\*state\.caCertDer\)$', [1]), lens(r'KeymasterPublicKeys\)$', [1]), lens(r'OpenIDConnectIDP\.Client\)$', [0, 1])]
     if sealed:
         hints += [pin(r'^\*state\.(Signer|Ed25519Signer)$', IfaceV(None, None)), lens(r'^len\(\*state\.caCertDer\)$', [0]), lens(r'KeymasterPublicKeys\)$', [0])]
     else:
